@@ -131,6 +131,7 @@ Ref5(t, n, sc, ha, a1, a2, p2, hq, q2, at, hp) ==
     path |-> SubSeq(t, a2 + 1, p2),
     query |-> IF hq THEN SubSeq(t, p2 + 2, q2) ELSE NONE,
     fragment |-> IF q2 + 1 <= n THEN SubSeq(t, q2 + 2, n) ELSE NONE,      \* t[q2 + 1] = '#'
+    a2 |-> IF ha THEN a2 ELSE 0,                                          \* last index (in t) of the authority
     \* positions (in t) of userinfo and host, for compact emission
     pos |-> <<IF ha /\ at >= a1 THEN a1 ELSE 0, IF ha /\ at >= a1 THEN at - 1 ELSE 0,
               IF ha /\ ~hp.bad THEN hp.h1 ELSE 0, IF ha /\ ~hp.bad THEN hp.hend ELSE 0>> ]
